@@ -44,11 +44,24 @@ def case_st(draw, tier, mode):
         if not any(v):
             v[2] = 1.0
         dirs.append(v)
-    form = draw(st.sampled_from(['free', 'free', 'random_sampling', 'boresight']))
+    form = draw(st.sampled_from(['free', 'free', 'random_sampling', 'boresight', 'compact']))
     ns = draw(st.integers(1, 12))
     if form == 'boresight':
         dirs = [[0.0, 0.0, 1.0]] * (ndet * ndir)
-    ang = st.one_of(st.sampled_from([0.0, math.pi, math.pi / 2, 1e-3, math.pi - 1e-3]), st.floats(0.0, math.pi, allow_nan=False))
+    if form == 'compact':
+        # a compact focal plane of (almost exactly) normalised directions around the boresight, many samples, fine map
+        nside = draw(st.sampled_from([128, 256] if tier == 'quick' else [256, 512]))
+        ns = draw(st.integers(24, 64))
+        off = st.floats(-4e-3, 4e-3, allow_nan=False)
+        dirs = []
+        for _ in range(ndet * ndir):
+            x, y = draw(off), draw(off)
+            z = math.sqrt(max(0.0, 1.0 - x * x - y * y))
+            scale = 1.0 + draw(st.sampled_from([0.0, 1e-6, -1e-6, 8e-6, -8e-6]))
+            dirs.append([x * scale, y * scale, z * scale])
+    # the Euler angle theta is any real number (a scan may pass over a pole): [-pi, 2 pi]
+    ang = st.one_of(st.sampled_from([0.0, math.pi, math.pi / 2, 1e-3, math.pi - 1e-3, -0.3, math.pi + 0.4]),
+                    st.floats(0.0, math.pi, allow_nan=False), st.floats(-math.pi, 2 * math.pi, allow_nan=False))
     phi_s = st.one_of(st.sampled_from([0.0, math.pi, -math.pi, 2 * math.pi, 7.0, -4.0]), st.floats(-4 * math.pi, 4 * math.pi, allow_nan=False))
     psi_s = st.one_of(st.sampled_from([0.0, math.pi / 4, -math.pi / 2, 1.0, 3.0]), st.floats(-2 * math.pi, 2 * math.pi, allow_nan=False))
     theta = [draw(ang) for _ in range(ns)]
